@@ -419,8 +419,9 @@ def check(pid, tier, seed=None, runs=None, workers=None, write_evidence=True, qu
                 mspec, n_exec = minimise(pid, spec, v)
                 mres = run_spec(pid, mspec)
                 mv = mres.get("violation") or v
+                trace = mres.get("events", [])[:120]
             except Exception as e:  # noqa
-                mspec, n_exec, mv = spec, 0, v
+                mspec, n_exec, mv, trace = spec, 0, v, []
                 print("minimisation failed (%s); reporting the unminimised run" % e)
             os.makedirs(os.path.join(VERIF_DIR, "replays", pid), exist_ok=True)
             replay_path = os.path.join(VERIF_DIR, "replays", pid, "%s.json" % (r["seed"] if r["seed"] is not None else "fixed%d" % -r["idx"]))
@@ -429,6 +430,7 @@ def check(pid, tier, seed=None, runs=None, workers=None, write_evidence=True, qu
                                        "original_ops": len(spec.get("ops", [])),
                                        "minimised_ops": len(mspec.get("ops", [])),
                                        "minimise_executions": n_exec,
+                                       "trace_of_the_minimised_run": trace,     # outcomes, faults fired, interleavings as they happened
                                        "readable": prop.readable(mspec) if hasattr(prop, "readable") else None},
                          mspec)
             # the minimised file must reproduce in a fresh interpreter
